@@ -198,4 +198,181 @@ theorem step_event (fx : Bool) (c : Cfg) (r : R) (l : Label) (e : Ev) (h : (step
   cases l <;> simp [step] at h
   exact ⟨_, rfl⟩
 
+/-! ### The shared flags under address-level and reconnector-level steps -/
+
+theorem arm_flags (r : R) (d : Nat) : (arm r d).1.paused = r.paused ∧ (arm r d).1.closed = r.closed := ⟨rfl, rfl⟩
+
+theorem schedule_flags (c : Cfg) (r : R) :
+    (schedule c r).paused = r.paused ∧ (schedule c r).closed = r.closed := by
+  unfold schedule
+  split
+  · exact ⟨rfl, rfl⟩
+  · cases r.st <;> simp only [arm] <;> split <;> simp
+
+theorem fire_flags (c : Cfg) (r : R) (i : Nat) :
+    (fire true c r i).1.paused = r.paused ∧ (fire true c r i).1.closed = r.closed := by
+  unfold fire
+  split
+  · exact ⟨rfl, rfl⟩
+  · simp only
+    split
+    · exact ⟨rfl, rfl⟩
+    · split <;> exact ⟨rfl, rfl⟩
+
+theorem ret_flags (c : Cfg) (r : R) (ok : Bool) :
+    (ret true c r ok).paused = r.paused ∧ (ret true c r ok).closed = r.closed := by
+  unfold ret
+  split
+  · exact ⟨rfl, rfl⟩
+  · simp only
+    split
+    · exact ⟨rfl, rfl⟩
+    · split
+      · exact ⟨rfl, rfl⟩
+      · split
+        · exact ⟨rfl, rfl⟩
+        · simp only [↓reduceIte]
+          split
+          · simp
+          · split
+            · split
+              · simp
+              · simp [arm]
+            · simp
+
+theorem clear_flags (r : R) : (clear r).paused = r.paused ∧ (clear r).closed = r.closed := by
+  unfold clear
+  cases r.st <;> simp
+
+/-- An address-level step does not touch the reconnector's flags. -/
+theorem step_local_flags (c : Cfg) (r : R) (l : Label) (hl : l.isGlobal = false) :
+    (step true c r l).1.paused = r.paused ∧ (step true c r l).1.closed = r.closed := by
+  cases l with
+  | schedule => exact schedule_flags c r
+  | fire i => exact fire_flags c r i
+  | retOk => exact ret_flags c r true
+  | retFail => exact ret_flags c r false
+  | retFailSched =>
+    simp only [step]
+    split
+    · exact ret_flags c r false
+    · have h1 := ret_flags c (schedule c r) false
+      have h2 := schedule_flags c r
+      exact ⟨h1.1.trans h2.1, h1.2.trans h2.2⟩
+  | cancel => exact clear_flags r
+  | pause => cases hl
+  | resume => cases hl
+  | resetAll => cases hl
+  | stop => cases hl
+
+/-- A reconnector-level step computes the new flags from the old flags only. -/
+theorem step_global_flags (c : Cfg) (r r' : R) (l : Label) (hl : l.isGlobal = true)
+    (hp : r.paused = r'.paused) (hc : r.closed = r'.closed) :
+    (step true c r l).1.paused = (step true c r' l).1.paused ∧
+    (step true c r l).1.closed = (step true c r' l).1.closed := by
+  cases l with
+  | pause =>
+    simp only [step, pause, hp, hc]
+    split
+    · exact ⟨hp, hc⟩
+    · cases r.st <;> cases r'.st <;> simp [hc]
+  | resume => exact ⟨rfl, hc⟩
+  | resetAll => simp only [step]; rw [(clear_flags r).1, (clear_flags r).2, (clear_flags r').1, (clear_flags r').2]; exact ⟨hp, hc⟩
+  | stop => simp only [step]; rw [(clear_flags r).1, (clear_flags r').1]; exact ⟨hp, by trivial⟩
+  | schedule => cases hl
+  | fire i => cases hl
+  | retOk => cases hl
+  | retFail => cases hl
+  | retFailSched => cases hl
+  | cancel => cases hl
+
+
+/-! ### The backoff sequence -/
+
+theorem nextD_ge (c : Cfg) (hm : c.mden ≤ c.mnum) (hd : 0 < c.mden) (d : Nat) (hM : d ≤ c.M) : d ≤ nextD c d := by
+  unfold nextD
+  have h1 : d ≤ d * c.mnum / c.mden := by
+    rw [Nat.le_div_iff_mul_le hd]
+    exact Nat.mul_le_mul_left d hm
+  exact Nat.le_min.mpr ⟨h1, hM⟩
+
+theorem dseq_le_max_all (c : Cfg) (hIM : c.I ≤ c.M) : ∀ k, dseq c k ≤ c.M
+  | 0 => hIM
+  | k + 1 => by simp only [dseq, nextD]; exact Nat.min_le_right _ _
+
+theorem dseq_mono (c : Cfg) (hm : c.mden ≤ c.mnum) (hd : 0 < c.mden) (hIM : c.I ≤ c.M) (k : Nat) :
+    dseq c k ≤ dseq c (k + 1) :=
+  nextD_ge c hm hd _ (dseq_le_max_all c hIM k)
+
+theorem dseq_cap_absorbing (c : Cfg) (hm : c.mden ≤ c.mnum) (hd : 0 < c.mden) (k : Nat)
+    (h : dseq c k = c.M) : dseq c (k + 1) = c.M := by
+  have h1 : nextD c c.M ≤ c.M := by unfold nextD; exact Nat.min_le_right _ _
+  have h2 := nextD_ge c hm hd c.M (Nat.le_refl _)
+  simp only [dseq]
+  rw [h]
+  exact Nat.le_antisymm h1 h2
+
+theorem dseq_ge_I (c : Cfg) (hm : c.mden ≤ c.mnum) (hd : 0 < c.mden) (hIM : c.I ≤ c.M) : ∀ k, c.I ≤ dseq c k
+  | 0 => Nat.le_refl _
+  | k + 1 => Nat.le_trans (dseq_ge_I c hm hd hIM k) (dseq_mono c hm hd hIM k)
+
+/-- strict growth below the cap when `I·(m−1) ≥ 1` -/
+theorem nextD_grow (c : Cfg) (hd : 0 < c.mden) (hg : c.mden ≤ (c.mnum - c.mden) * c.I) (d : Nat) (hI : c.I ≤ d) :
+    min (d + 1) c.M ≤ nextD c d := by
+  unfold nextD
+  have hmn : c.mden ≤ c.mnum := by
+    rcases Nat.lt_or_ge c.mnum c.mden with h | h
+    · have : c.mnum - c.mden = 0 := Nat.sub_eq_zero_of_le (Nat.le_of_lt h)
+      rw [this, Nat.zero_mul] at hg; omega
+    · exact h
+  have h1 : d + 1 ≤ d * c.mnum / c.mden := by
+    rw [Nat.le_div_iff_mul_le hd]
+    -- (d+1)*mden = d*mden + mden ≤ d*mden + (mnum-mden)*d = d*mnum
+    have h2 : (c.mnum - c.mden) * c.I ≤ (c.mnum - c.mden) * d := Nat.mul_le_mul_left _ hI
+    have h3 : d * c.mnum = d * c.mden + (c.mnum - c.mden) * d := by
+      rw [Nat.mul_comm (c.mnum - c.mden) d, ← Nat.mul_add, Nat.add_sub_cancel' hmn]
+    rw [h3, Nat.add_mul, Nat.one_mul]
+    omega
+  rw [Nat.le_min]
+  constructor
+  · exact Nat.le_trans (Nat.min_le_left _ _) h1
+  · exact Nat.min_le_right _ _
+
+theorem dseq_lower (c : Cfg) (hd : 0 < c.mden) (hg : c.mden ≤ (c.mnum - c.mden) * c.I) (hIM : c.I ≤ c.M) :
+    ∀ k, min (c.I + k) c.M ≤ dseq c k := by
+  have hmn : c.mden ≤ c.mnum := by
+    rcases Nat.lt_or_ge c.mnum c.mden with h | h
+    · have : c.mnum - c.mden = 0 := Nat.sub_eq_zero_of_le (Nat.le_of_lt h)
+      rw [this, Nat.zero_mul] at hg; omega
+    · exact h
+  intro k
+  induction k with
+  | zero => simp [dseq]; exact Nat.min_le_left _ _
+  | succ k ih =>
+    have h1 := nextD_grow c hd hg (dseq c k) (dseq_ge_I c hmn hd hIM k)
+    simp only [dseq]
+    have hle := dseq_le_max_all c hIM k
+    have : min (c.I + (k + 1)) c.M ≤ min (dseq c k + 1) c.M := by
+      generalize dseq c k = x at ih hle
+      omega
+    exact Nat.le_trans this h1
+
+theorem dseq_reaches_cap (c : Cfg) (hd : 0 < c.mden) (hg : c.mden ≤ (c.mnum - c.mden) * c.I) (hIM : c.I ≤ c.M) :
+    ∀ k, c.M - c.I ≤ k → dseq c k = c.M := by
+  intro k hk
+  have h1 := dseq_lower c hd hg hIM k
+  have h2 := dseq_le_max_all c hIM k
+  have : min (c.I + k) c.M = c.M := Nat.min_eq_right (by omega)
+  rw [this] at h1
+  exact Nat.le_antisymm h2 h1
+
+theorem dseq_step_slack (c : Cfg) (hd : 0 < c.mden) (k : Nat) :
+    dseq c (k + 1) = c.M ∨ dseq c k * c.mnum < (dseq c (k + 1) + 1) * c.mden := by
+  simp only [dseq, nextD]
+  rcases Nat.le_total (dseq c k * c.mnum / c.mden) c.M with h | h
+  · right
+    rw [Nat.min_eq_left h, Nat.mul_comm _ c.mden]
+    exact Nat.lt_mul_div_succ _ hd
+  · left; exact Nat.min_eq_right h
+
 end MM.C31
